@@ -420,7 +420,7 @@ func (t *c12Tree) cue(b *strings.Builder) {
 	}
 }
 
-var c12TomlKeys = []string{"a", "b", "c", "a", "b", "k", "x", "a.b", "a.b", "b.c", "0", "1", "", "a b", "_", "_a", "#a",
+var c12TomlKeys = []string{"a", "b", "c", "a", "b", "k", "x", "ab", "abc", "a1", "a_", "item", "items", "server", "servers", "x y", "x y z", "éa", "a.b", "a.b", "b.c", "0", "1", "", "a b", "_", "_a", "#a",
 	"\"", "a\"b", "'", "\\", "a\\", "é", "日本", "😀", "a\nb", "\t", "-", "a-b", "true", "1e3", "\"a\"", "a.", ".", "..", "a..b", "\u00a0", "\ufeff"}
 
 var c12TomlStrings = []string{"", "x", "a.b", "1", "true", "1979-05-27", "07:32:00", "1979-05-27T07:32:00Z", "inf", "nan", "+1",
@@ -475,6 +475,9 @@ func c12GenTree(r *Rng, depth int, force byte) *c12Tree {
 	}
 	switch k {
 	case 'm':
+		if depth > 0 && r.Chance(1, 6) {
+			return c12GenFamily(r, depth)
+		}
 		n := r.Intn(4)
 		if depth <= 0 {
 			n = r.Intn(2)
@@ -501,6 +504,62 @@ func c12GenTree(r *Rng, depth int, force byte) *c12Tree {
 		return t
 	}
 	return &c12Tree{kind: 'a', atom: c12GenAtom(r)}
+}
+
+// sibling keys in a STRING-prefix relation (rooted keys are compared as strings by the decoder:
+// `server` must not be taken for an enclosing table array of `servers`); the last family holds
+// the relation only between the quoted spellings' contents
+var c12KeyFamilies = [][]string{{"a", "ab", "abc"}, {"item", "items"}, {"server", "servers", "servers2"}, {"job", "jobs"},
+	{"x", "x1", "x_y"}, {"é", "éa"}, {"x y", "x y z"}, {"a", "a.b", "a.bc"}, {"k", "k-1", "k1"}}
+
+// c12GenFamily: a table whose first family key holds an array of tables and whose later family
+// keys hold tables / arrays of tables / (rarely) scalars, plus unrelated keys
+func c12GenFamily(r *Rng, depth int) *c12Tree {
+	fam := Pick(r, c12KeyFamilies)
+	t := &c12Tree{kind: 'm'}
+	add := func(k string, v *c12Tree) { t.keys = append(t.keys, k); t.vals = append(t.vals, v) }
+	aot := func() *c12Tree {
+		l := &c12Tree{kind: 'l'}
+		for i, n := 0, 1+r.Intn(2); i < n; i++ {
+			l.list = append(l.list, c12GenTree(r, depth-2, 'm'))
+		}
+		return l
+	}
+	for i, k := range fam {
+		switch {
+		case i == 0 && r.Chance(5, 6):
+			add(k, aot())
+		case r.Chance(1, 2):
+			add(k, aot())
+		case r.Chance(4, 5):
+			add(k, c12GenTree(r, depth-1, 'm'))
+		default:
+			add(k, c12GenTree(r, 0, 'a'))
+		}
+	}
+	if r.Bool() {
+		for _, k := range c12GenKeys(r, 1) {
+			dup := false
+			for _, e := range t.keys {
+				dup = dup || e == k
+			}
+			if !dup {
+				add(k, c12GenTree(r, depth-1, 0))
+			}
+		}
+	}
+	// keys sorted as go-toml emits them
+	idx := make([]int, len(t.keys))
+	for i := range idx {
+		idx[i] = i
+	}
+	sort.Slice(idx, func(a, b int) bool { return t.keys[idx[a]] < t.keys[idx[b]] })
+	keys, vals := make([]string, len(idx)), make([]*c12Tree, len(idx))
+	for i, j := range idx {
+		keys[i], vals[i] = t.keys[j], t.vals[j]
+	}
+	t.keys, t.vals = keys, vals
+	return t
 }
 
 // c12CloneTree: same shape and keys, fresh scalars
@@ -855,6 +914,12 @@ func c12Corpus() []c12Doc {
 		{[]c12Ev{T("a.b"), T("a", "b"), T("a"), K(one, "c")}, ""},
 		{[]c12Ev{A("a"), K(one, "0"), T("a", "0")}, "array-element-key-reuse"},
 		{[]c12Ev{K(one, "a", "0"), K(arr(two), "b"), T("b.0")}, ""},
+		{[]c12Ev{A("server"), K(one, "x"), A("servers"), K(two, "x")}, ""},
+		{[]c12Ev{A("item"), K(one, "x"), T("items"), K(two, "y")}, ""},
+		{[]c12Ev{A("job"), K(one, "x"), T("jobs", "limits"), K(two, "y")}, ""},
+		{[]c12Ev{A("a"), A("a", "b"), A("a", "bc"), T("a", "bcd"), A("ab"), T("abc", "d")}, ""},
+		{[]c12Ev{A("t", "a"), K(one, "x"), A("t", "ab"), T("t", "abc")}, ""},
+		{[]c12Ev{A("x y"), A("x y z"), T("x"), A("x1")}, ""},
 		{[]c12Ev{K(one, ""), T(""), K(two, "")}, "dup"},
 		{[]c12Ev{T("", ""), K(two, "")}, ""},
 	}
